@@ -8,6 +8,9 @@ from . import tlc
 from .common import scratch, MachineryError, NCPU
 
 
+STATS = {"validated": 0, "accepted": 0, "rejected": 0}
+
+
 def validate(module, traces, constants=None, invariants=(), timeout=900, workers=NCPU, accept_inv="Accept"):
     """Returns dict(accepted={tid: info}, rejected=[tid], inv_violations=[(invariant, tid)], result=TLCResult)."""
     if not traces:
@@ -32,6 +35,9 @@ def validate(module, traces, constants=None, invariants=(), timeout=900, workers
         tids = re.findall(r"/\\ tid = (\d+)", seg)
         viol.append((m.group(1), int(tids[-1]) if tids else 0))
     rejected = [t for t in range(1, len(traces) + 1) if t not in accepted]
+    STATS["validated"] += len(traces)
+    STATS["accepted"] += len(accepted)
+    STATS["rejected"] += len(rejected)
     return dict(accepted=accepted, rejected=rejected, inv_violations=viol, result=r)
 
 
